@@ -1266,3 +1266,103 @@ M("C09", "set_fsg: fsg used after fsg_search_init", "src/decoder.c", """    sear
 M("C09", "json: sizing forgets the empty segment list (seed C09-1 core)", "src/decoder.c", """        seg_iter_t *itor = decoder_seg_iter(d);
         if (itor == NULL)
             maxlen++; /* ] at end */""", """        seg_iter_t *itor = decoder_seg_iter(d);""", "EMIT.E1-two-passes")
+
+# ---- later additions (configuration ranges, discarded status, containers, seeds of round 2) ----
+M("C10", "ptm: ds test dropped (revert)", "src/ptm_mgau.c", """    if (s->ds_ratio < 1) {
+        E_ERROR("Frame downsampling ratio must be at least 1 (is %d)\\n",
+                s->ds_ratio);
+        goto error_out;
+    }
+""", "", "CONFIG.range")
+M("C10", "s2: topn lower bound dropped", "src/s2_semi_mgau.c", "    if (s->max_topn < 1 || s->max_topn > s->g->n_density) {", "    if (s->max_topn > s->g->n_density) {", "CONFIG.range")
+M("C10", "fe: nfilt test dropped (revert)", "src/fe_interface.c", """    if (mel->num_filters < 1) {
+        E_ERROR("Number of filters must be at least 1 (is %d)\\n",
+                mel->num_filters);
+        return -1;
+    }
+""", "", "CONFIG.range")
+M("C10", "fe: ncep test dropped (revert)", "src/fe_interface.c", """    if (config_int(config, "ncep") < 1 || config_int(config, "ncep") > 255) {
+        E_ERROR("Number of cepstra must be between 1 and 255 (is %ld)\\n",
+                config_int(config, "ncep"));
+        return -1;
+    }
+""", "", "CONFIG.range")
+M("C10", "ms: aw test dropped (revert)", "src/ms_mgau.c", """    if (s->aw < 1) {
+        E_ERROR("Inverse acoustic weight must be at least 1 (is %d)\\n", s->aw);
+        goto error_out;
+    }
+""", "", "CONFIG.range", first=True)
+M("C10", "ms: negative topn passes again (revert)", "src/ms_mgau.c", "    if (msg->topn <= 0 || msg->topn > msg->g->n_density) {", "    if (msg->topn == 0 || msg->topn > msg->g->n_density) {", "CONFIG.range", first=True)
+M("C10", "feat: negative ceplen accepted (revert)", "src/feat.c", """    if (cepsize < 0) {
+        E_ERROR("Length of the input vectors must not be negative (is %d)\\n",
+                cepsize);
+        return NULL;
+    }
+""", "", "CONFIG.range")
+M("C10", "benign: ds test as <= 0", "src/ptm_mgau.c", "    if (s->ds_ratio < 1) {", "    if (s->ds_ratio <= 0) {", None, "benign")
+M("C10", "fe_init: filterbank result ignored (revert)", "src/fe_interface.c", """    if (fe_build_melfilters(fe->mel_fb) != FE_SUCCESS) {
+        E_ERROR("Failed to build the mel filterbank\\n");
+        fe_free(fe);
+        return NULL;
+    }""", """    fe_build_melfilters(fe->mel_fb);""", "ERRD.status")
+M("C10", "decoder_reinit: feature set-up result ignored", "src/decoder.c", """    if (config)
+        if (decoder_init_config(d, config) < 0)
+            return -1;""", """    if (config)
+        decoder_init_config(d, config);""", "ERRD.status")
+M("C10", "jsgf import: failed parse entered into the table (revert)", "src/jsgf.c", """        if (imp == NULL) {
+            E_ERROR("Failed to import %s from %s\\n", name, path);
+            ckd_free(path);
+            return NULL;
+        }
+""", "", "ERRD.null")
+M("C17", "sendump: single 32-bit size test instead of per-row tests (seed C17-3 core)", "src/ptm_mgau.c", """            s3f->ptr += step;
+            if (s3f->ptr > s3f->end) {
+                E_ERROR("Mixture weights for feature %d truncated\\n", n);
+                return -1;
+            }""", """            s3f->ptr += step;""", "CURSOR")
+M("C18", "ptm norm: skipped on down-sampled frames inside the normaliser (seed C18-3 core)", "src/ptm_mgau.c", """    (void)z;
+    (void)frame;
+    for (j = 0; j < s->g->n_feat; ++j) {
+        int32 norm = WORST_SCORE;""", """    (void)z;
+    if (frame % s->ds_ratio)
+        return 0;
+    for (j = 0; j < s->g->n_feat; ++j) {
+        int32 norm = WORST_SCORE;""", "NORM.frame")
+M("C18", "cmn repr: writing loop stops when the buffer is full", "src/cmn.c", """    for (i = 0; i < cmn->veclen; ++i)
+        ptr += snprintf(ptr, cmn->repr + len - ptr, "%g,",
+                        MFCC2FLOAT(cmn->cmn_mean[i]));""", """    for (i = 0; i < cmn->veclen; ++i) {
+        if (cmn->repr + len - ptr < 16)
+            break;
+        ptr += snprintf(ptr, cmn->repr + len - ptr, "%g,",
+                        MFCC2FLOAT(cmn->cmn_mean[i]));
+    }""", "REPR")
+M("C09", "lattice: stored in the search before it is complete (seed C09-3 core)", "src/fsg_search.c", """    lattice_free(search->dag);
+    search->dag = NULL;
+    dag = lattice_init_search(search, fsgs->frame);""", """    lattice_free(search->dag);
+    search->dag = dag = lattice_init_search(search, fsgs->frame);""", "UNWIND")
+M("C09", "align text: counting pass splits on blanks only", "src/decoder.c", """    while ((n = nextword(ptr, " \\t\\n\\r", &word, &delimfound)) >= 0) {
+        int wid;
+        if ((wid = dict_wordid(d->dict, word)) == BAD_S3WID) {
+            E_ERROR("Unknown word %s\\n", word);
+            ckd_free(textbuf);
+            return -1;
+        }
+        ptr = word + n;
+        *ptr = delimfound;
+        ++nwords;
+    }
+    /* Second pass: make fsg */""", """    while ((n = nextword(ptr, " ", &word, &delimfound)) >= 0) {
+        int wid;
+        if ((wid = dict_wordid(d->dict, word)) == BAD_S3WID) {
+            E_ERROR("Unknown word %s\\n", word);
+            ckd_free(textbuf);
+            return -1;
+        }
+        ptr = word + n;
+        *ptr = delimfound;
+        ++nwords;
+    }
+    /* Second pass: make fsg */""", "TWIN.align-text")
+M("C09", "align text: one state too few", "src/decoder.c", """                         config_float(d->config, "lw"),
+                         nwords + 1);""", """                         config_float(d->config, "lw"),
+                         nwords);""", "TWIN.align-text")
